@@ -127,7 +127,18 @@ def make_messages(r):
     ch = list(r.chunks)
     if not ch:
         return [{"type": "http.request", "body": b"", "more_body": False}]
-    return [{"type": "http.request", "body": c, "more_body": i < len(ch) - 1} for i, c in enumerate(ch)]
+    msgs = [{"type": "http.request", "body": c, "more_body": i < len(ch) - 1} for i, c in enumerate(ch)]
+    # both keys are optional in ASGI (body defaults to b"", more_body to False): every other request leaves the defaults out
+    _alternate[0] += 1
+    if _alternate[0] % 2:
+        del msgs[-1]["more_body"]
+        for m in msgs:
+            if m["body"] == b"":
+                del m["body"]
+    return msgs
+
+
+_alternate = [0]
 
 
 class WsgiResult:
@@ -244,6 +255,8 @@ def asgi_call(app, r_or_scope, messages=None, *, extensions=None, send_fail_at=N
     After the request messages are consumed receive() blocks (as a real server does) until the
     harness decides to deliver http.disconnect (disconnect_after_sends = n: after the n-th send)."""
     import os
+    if _timeouts[0] >= 6:
+        raise Livelock("%d application calls did not return within %s s each" % (_timeouts[0], timeout))
     if isinstance(r_or_scope, dict):
         scope = r_or_scope
         msgs = list(messages or [{"type": "http.request", "body": b"", "more_body": False}])
@@ -305,6 +318,9 @@ def asgi_call(app, r_or_scope, messages=None, *, extensions=None, send_fail_at=N
     async def main():
         try:
             await asyncio.wait_for(app(scope, receive, send), timeout)
+        except asyncio.TimeoutError as e:
+            res.exc = e
+            _timeouts[0] += 1
         except BaseException as e:  # noqa
             res.exc = e
 
@@ -316,7 +332,14 @@ def asgi_call(app, r_or_scope, messages=None, *, extensions=None, send_fail_at=N
         t.cancel()
     if res.pending:
         lp.run_until_complete(asyncio.gather(*res.pending, return_exceptions=True))
+    if _timeouts[0] >= 6:
+        # every one of these waits costs `timeout` seconds of real time: a tree on which applications do not return at all would
+        # keep a check busy for hours.  Six are enough for a verdict.
+        raise Livelock("%d application calls did not return within %s s each (the last one: %s)" % (_timeouts[0], timeout, scope.get("path")))
     return res
+
+
+_timeouts = [0]
 
 
 def http_exception_response(exc):
